@@ -4,6 +4,7 @@ package checks
 var Registry = map[string]func(tier string){
 	"C01": C01,
 	"C16": C16,
+	"C02": C02,
 	"C06": C06,
 	"C03": C03,
 	"C17": C17,
